@@ -16,3 +16,7 @@
 (declare-fun grpc_code_of (Int) Int)
 (declare-fun has_grpc_status (Int) Bool)
 (declare-fun context_Canceled () Int)
+
+; the UTF-8 sanitised form of a string (strings.ToValidUTF8 with U+FFFD): uninterpreted;
+; the only fact used is that conduiterr.valid returns exactly this and nothing shorter
+(declare-fun utf8_valid (Int) Int)
